@@ -446,7 +446,37 @@ def recipe_pattern_subset(rng):
     return sc, pre
 
 
-RECIPES = {"pattern_subset": recipe_pattern_subset, "signal_veto": recipe_signal_veto, "singleton_set": recipe_singleton_set, "on_demand_stop": recipe_on_demand_stop, "untracked_zombies": recipe_untracked_zombies,
+def recipe_children_vanish(rng):
+    """a stop_children watcher whose worker has several children; one child disappears between the moment the
+    children are listed and the moment it is signalled (death armed before the k-th kernel call of the step): the
+    remaining children still have to get the signal"""
+    sc = {"arb": {"warmup_ms": 0}, "behav": [{"term": rng.choice([["obey", 50], ["obey", 200], ["ignore"]]), "kill_lat": 0,
+                                              "spawn_ms": 1, "kids": rng.choice([2, 3, 3])}],
+          "watchers": [dict(_w("a", np=1, graceful_ms=rng.choice([300, 500])), stop_children=True)]}
+    pre = [["start"]] + [["wake"]] * 3
+
+    def fault(v):
+        kids = sorted(v.kids)
+        if not kids:
+            return ["check"]
+        victim = kids[0] if rng.random() < 0.7 else rng.choice(kids)
+        return ["fault", rng.randint(2, 9), victim, sim.wstat_sig(9)]
+    pre.append(fault)
+    r = rng.random()
+    if r < 0.5:
+        pre.append(_req("stop", "q1", name="a", waiting=rng.random() < 0.5))
+    elif r < 0.75:
+        pre.append(lambda v: ["req", {"command": "kill", "id": "q1", "properties":
+                                      {"name": "a", "pid": (v.pids.get("a") or [100])[0], "signum": rng.choice([2, 15])}}, 0])
+    else:
+        pre.append(lambda v: ["req", {"command": "signal", "id": "q1", "properties":
+                                      {"name": "a", "pid": (v.pids.get("a") or [100])[0], "signum": rng.choice([2, 15, 10]),
+                                       "children": True}}, 0])
+    pre += [["wake"]] * 4
+    return sc, pre
+
+
+RECIPES = {"children_vanish": recipe_children_vanish, "pattern_subset": recipe_pattern_subset, "signal_veto": recipe_signal_veto, "singleton_set": recipe_singleton_set, "on_demand_stop": recipe_on_demand_stop, "untracked_zombies": recipe_untracked_zombies,
            "topup_start": recipe_topup_start}
 
 
